@@ -30,6 +30,14 @@ pub fn impl_roundtrip(text: &str) -> String {
             let shown = e.to_string();
             match Expr::parse(&shown) {
                 Ok(e2) if e2 == e => {
+                    // a rendering is rule text as well: read back through the other entry point it denotes the same tree
+                    if !(shown.contains("//") || shown.contains('@')) {
+                        match Rule::parse(&format!("// n\n{}", shown)) {
+                            Ok(r) if r.expr() == &e => {}
+                            Ok(_) => return format!("different-tree (the rendering read back through Rule::parse)\t{}", shown),
+                            Err(_) => return format!("rendering-rejected (the rendering read back through Rule::parse)\t{}", shown),
+                        }
+                    }
                     // the expression of a rule parsed from the same text is a parsed expression too
                     if text.contains("//") || text.contains('@') {
                         return "same".into();
@@ -1252,6 +1260,39 @@ pub fn run_c16(rep: &mut Report, driver: &str, workers: usize, thorough: bool, s
         });
         out
     };
+    // … and read back through the other entry point: the rendering is rule text too
+    {
+        let mut via_rule: Vec<Option<String>> = vec![None; n];
+        let chunk = ((n + workers - 1) / workers.max(1)).max(1);
+        std::thread::scope(|sc| {
+            for ((ts, es), os) in texts.chunks(chunk).zip(encs.chunks(chunk)).zip(via_rule.chunks_mut(chunk)) {
+                sc.spawn(move || {
+                    for ((t, e), o) in ts.iter().zip(es.iter()).zip(os.iter_mut()) {
+                        if t.contains("//") || t.contains('@') {
+                            continue;
+                        }
+                        // only renderings that Expr::parse reads back as the tree (everything else is reported above)
+                        if impl_parse(t) != format!("(ok {})", e) {
+                            continue;
+                        }
+                        *o = match catch_unwind(AssertUnwindSafe(|| Rule::parse(&format!("// n\n{}", t)))) {
+                            Err(_) => Some("PANIC".to_string()),
+                            Ok(Err(_)) => Some("rejected".to_string()),
+                            Ok(Ok(r)) => {
+                                let got = enc_expr(r.expr());
+                                if &got == e { None } else { Some(format!("(ok {})", got)) }
+                            }
+                        };
+                    }
+                });
+            }
+        });
+        for (i, o) in via_rule.into_iter().enumerate() {
+            if let Some(got) = o {
+                rep.add_finding(Finding { kind: "impl-violates-property".into(), stream: "renderings".into(), case: format!("display-rule\t{}", encs[i]), human: format!("Rule::parse of the rendering {:?}", texts[i].chars().take(120).collect::<String>()), impl_out: got, model_out: format!("(ok {})", encs[i]), predicate: "the rendering of a parsed expression denotes that expression — read back as an expression and as the expression of a rule".into(), signature: "C16 rendering-through-rule".into() });
+            }
+        }
+    }
     // the model's rendering (float texts from the library through the oracle), and the model's parse of the real rendering
     let mk = |i: usize, oracle: &str| format!("display\t{}\t{}", encs[i], oracle);
     let model_disp = model_batch(driver, workers, &mk, n);
